@@ -68,6 +68,10 @@ pub struct Cfg {
     /// wants to know that the receiver has gone)
     #[serde(default)]
     pub stream_wakes_on_drop: bool,
+    /// injected panics carry a payload whose destructor panics in turn when a pool thread drops it (a pool thread that
+    /// catches a job's panic and discards the payload dies there, after the job's own panic has been dealt with)
+    #[serde(default)]
+    pub payload_bomb: bool,
 }
 
 #[derive(Clone, Copy, Debug, PartialEq, Eq, Serialize, Deserialize)]
@@ -357,8 +361,8 @@ impl Case {
     pub fn pretty(&self) -> String {
         let mut s = String::new();
         s.push_str(&format!(
-            "cfg: pool={} objects={} gates={} streams={} level={:?} unlock_points={} spurious={:?} pre_open={:?} root_holds={} double_wake={} gate_keep_all={}\n",
-            self.cfg.pool, self.cfg.objects, self.cfg.gates, self.cfg.streams, self.cfg.level, self.cfg.unlock_points, self.cfg.spurious, self.cfg.pre_open, self.cfg.root_holds, self.cfg.double_wake, self.cfg.gate_keep_all
+            "cfg: pool={} objects={} gates={} streams={} level={:?} unlock_points={} spurious={:?} pre_open={:?} root_holds={} double_wake={} gate_keep_all={} payload_bomb={}\n",
+            self.cfg.pool, self.cfg.objects, self.cfg.gates, self.cfg.streams, self.cfg.level, self.cfg.unlock_points, self.cfg.spurious, self.cfg.pre_open, self.cfg.root_holds, self.cfg.double_wake, self.cfg.gate_keep_all, self.cfg.payload_bomb
         ));
         for (pi, ph) in self.phases.iter().enumerate() {
             s.push_str(&format!("phase {}: root={:?} must_finish={:?} expect_panicked={:?} probe={}\n", pi, ph.root, ph.must_finish_objs, ph.expect_panicked, ph.capacity_probe));
